@@ -51,6 +51,8 @@ def gen_cases(rng, tier):
                         r['v'] = ''
                     if rng.chance(0.2):
                         r['k2'] = ''
+        if rng.chance(0.25):
+            c['enum_mode'] = True
         if rng.chance(0.35):
             # how the rows that continue downstream are observed: by the caller of results() (which validates them against
             # the schema once more) or behind a second dumper (round 7)
@@ -72,6 +74,13 @@ def gen_cases(rng, tier):
         if rng.chance(0.5):
             dumps.append({'type': t2, 'mode': 'append', 'rows': [dict(r, k=r['k'] + 10) for r in mk(t2)]})
         cases.append({'kind': 'retype', 'dumps': [dict(d, rows=rows_enc(d['rows'])) for d in dumps], 'pk': rng.chance(0.5)})
+    for chdir in (True, False):
+        cases.append({'kind': 'relurl', 'chdir': chdir})
+    # the three modes given as members of a str-based Enum, after an earlier dump
+    for m2 in ('rewrite', 'update', 'append'):
+        cases.append({'kind': 'history', 'keys': ['k'], 'pk': False, 'flags': True, 'keys_always': True, 'enum_mode': True,
+                      'dumps': [{'mode': 'rewrite', 'rows': [{'k': 1, 'k2': 'p', 'v': 'a', 'n': 1}, {'k': 2, 'k2': 'p', 'v': 'b', 'n': 2}], 'batch': 1000, 'bloom': True},
+                                {'mode': m2, 'rows': [{'k': 2, 'k2': 'q', 'v': 'B', 'n': 3}, {'k': 4, 'k2': 'q', 'v': 'd', 'n': 4}], 'batch': 1000, 'bloom': True}]})
     for i in range(max(4, n // 8)):
         # array/object columns: the engine gets converted copies; pairing of written and original rows across batches
         # nested values the engine conversion turns into text (dates, decimals inside objects and arrays) must
@@ -95,6 +104,53 @@ def witnesses():
     return [{'kind': 'objects', 'rows': rows_enc([{'k': 1, 'arr': [1, 2], 'obj': {'a': 1}}]), 'witness_of': 'regression: C20.array_object_rows_jsonized (fixed)'}]
 
 
+import enum
+
+
+class Mode(str, enum.Enum):
+    REWRITE = 'rewrite'
+    APPEND = 'append'
+    UPDATE = 'update'
+
+
+def run_relurl(case):
+    """a relative SQLite URL names the database file relative to where the step was built (the engine is made then): a
+    sequence of dumps built in one directory and run from another goes into that one file"""
+    base = os.path.join(scratch(), 'c20rel_%s' % digest(case))
+    import shutil
+    shutil.rmtree(base, ignore_errors=True)
+    os.makedirs(os.path.join(base, 'a'))
+    os.makedirs(os.path.join(base, 'b'))
+    old = os.getcwd()
+    fields = [{'name': 'k', 'type': 'integer'}, {'name': 'v', 'type': 'string'}]
+    try:
+        flows = []
+        os.chdir(os.path.join(base, 'a'))
+        for mode, rows in (('rewrite', [{'k': 1, 'v': 'a'}, {'k': 2, 'v': 'b'}, {'k': 3, 'v': 'c'}]), ('append', [{'k': 4, 'v': 'd'}, {'k': 5, 'v': 'e'}])):
+            flows.append(Flow(Src([{'name': 'r', 'fields': fields, 'rows': rows}]), DF.dump_to_sql({'t': {'resource-name': 'r', 'mode': mode}}, engine='sqlite:///data.db')))
+        with quiet():
+            flows[0].process()
+            if case['chdir']:
+                os.chdir(os.path.join(base, 'b'))
+            flows[1].process()
+        out = {}
+        for d in ('a', 'b'):
+            f = os.path.join(base, d, 'data.db')
+            if os.path.exists(f):
+                eng = create_engine('sqlite:///' + f)
+                with eng.connect() as c_:
+                    out[d] = [list(r) for r in c_.execute(text('select k, v from t order by k')).fetchall()]
+                eng.dispose()
+            else:
+                out[d] = None
+        return out
+    except Exception as e:
+        return {'error': '%s: %s' % (type(e).__name__, str(e)[:200])}
+    finally:
+        os.chdir(old)
+        shutil.rmtree(base, ignore_errors=True)
+
+
 def select_all(engine, cols):
     with engine.connect() as c:
         try:
@@ -105,6 +161,8 @@ def select_all(engine, cols):
 
 
 def run_impl(case):
+    if case['kind'] == 'relurl':
+        return run_relurl(case)
     engine = create_engine('sqlite://')
     if case['kind'] == 'objects':
         rows = rows_dec(case['rows'])
@@ -145,7 +203,7 @@ def run_impl(case):
     steps = []
     for d in case['dumps']:
         res = [{'name': 'r', 'fields': fields, 'rows': d['rows'], 'pk': case['keys'] if case['pk'] else None, 'missingValues': case.get('mv')}]
-        spec = {'resource-name': 'r', 'mode': d['mode']}
+        spec = {'resource-name': 'r', 'mode': Mode(d['mode']) if case.get('enum_mode') else d['mode']}     # (a str-based Enum member is a str)
         if (d['mode'] == 'update' or case.get('keys_always')) and not case['pk']:
             spec['update_keys'] = case['keys']      # the same table spec re-used while only the mode varies
         kw = {'batch_size': d['batch'], 'use_bloom_filter': d['bloom']}
@@ -178,6 +236,14 @@ def key_of(r, keys):
 
 
 def oracle(case, out):
+    if case['kind'] == 'relurl':
+        if 'error' in out:
+            return 'dumps to a relative SQLite URL failed: %s' % out['error']
+        want = [[1, 'a'], [2, 'b'], [3, 'c'], [4, 'd'], [5, 'e']]
+        if out.get('a') != want or out.get('b') is not None:
+            return ('a rewrite dump and an append dump to sqlite:///data.db, both built in directory a%s: a/data.db holds %r, b/data.db %r; '
+                    'the table is to hold %r') % (', the second run from directory b' if case['chdir'] else '', out.get('a'), out.get('b'), want)
+        return None
     if case['kind'] == 'objects':
         if 'error' in out:
             return 'dump_to_sql failed on array/object columns: %s' % out['error']
